@@ -266,7 +266,61 @@ func sessionScript(r *prng.R, p pools, ids []uint16, self uint16) []scripted {
 
 // runRbc: single real receiver, arbitrary input sequences (all adversaries, all orders, as far as
 // one receiver can tell), step-exact against the model, with the C03 monitors.
+// rbcReentrant: the backend reacts to a hand-over at once and the transport delivers in-process (as the synchronous
+// network of the repository's own receiver test does), so a peer's repeated acknowledgement — or the payload re-sent —
+// re-enters Receive while the hand-over is still in progress; in a second variant the hand-over ends abnormally (the
+// backend panics, the caller recovers) and the repetition comes afterwards. At most once per sender and round.
+func rbcReentrant(s *out.Sink) {
+	for _, variant := range []string{"repeated-ack-during-hand-over", "resent-payload-during-hand-over", "repeated-ack-after-backend-panic"} {
+		for _, n := range []int{3, 4} {
+			count := 0
+			var rcv *rbc.Receiver
+			payload := &hmsg{payload: []byte{1, 1, 7}, round: 1, broadcast: true, digest: sha([]byte{1, 1, 7})}
+			ackFrom := func(from uint16) {
+				rcv.Receive(&hmsg{isAck: true, digest: payload.digest, ackSender: 1, round: 1}, from)
+			}
+			rcv = &rbc.Receiver{SelfID: 0, N: n, Logger: nopLogger{},
+				ForwardToBackend: func(m interface{}, from uint16) {
+					count++
+					if count > 4 {
+						return
+					}
+					switch variant {
+					case "repeated-ack-during-hand-over":
+						ackFrom(2)
+					case "resent-payload-during-hand-over":
+						rcv.Receive(payload, 1)
+					case "repeated-ack-after-backend-panic":
+						if count == 1 {
+							panic("scripted backend failure")
+						}
+					}
+				},
+				BroadcastAck: func(string, uint16, uint8) {},
+			}
+			safely(func() string {
+				rcv.Receive(payload, 1)
+				for q := uint16(2); int(q) < n; q++ {
+					ackFrom(q)
+				}
+				return ""
+			})
+			if variant == "repeated-ack-after-backend-panic" {
+				safely(func() string { ackFrom(2); return "" })
+			}
+			s.N++
+			s.Count("reentrant/" + variant)
+			s.Distinct[fmt.Sprintf("reentrant %s n=%d", variant, n)] = struct{}{}
+			if count != 1 {
+				s.Violate("C03", fmt.Sprintf("the broadcast of sender 1, round 1 was handed to the backend %d times (%s, N=%d): at most once per sender and round", count, variant, n),
+					fmt.Sprintf("receiver 0 of %d: payload from 1, acknowledgements of the others; %s", n, variant))
+			}
+		}
+	}
+}
+
 func runRbc(r *prng.R, s *out.Sink, tier string) {
+	rbcReentrant(s)
 	sessions := 600
 	if tier == "thorough" {
 		sessions = 12000
